@@ -75,6 +75,32 @@ def history_failure(pattern, shape, nmax, calls, method, crop, bc, prefill):
     return None, None
 
 
+def cross_shape_failure(desc, h, k, ups, seed):
+    """a frame of odd width 2k+1 processed (with DFT upsampling) before and after frames of other shapes -- in particular of even width 2k, whose
+    half spectrum has the same number of columns -- have been processed in this process: identical results are required.  The caller passes
+    widths that have not been used before in this process, so that the first result is computed in a pristine state for that shape."""
+    r = np.random.default_rng(seed)
+    pattern = cl.pattern_from_desc(desc)
+    c = pattern.get_crop_size()
+    A = r.poisson(4.0, size=(h, 2 * k + 1)).astype(np.float32)
+    others = [r.poisson(4.0, size=sh).astype(np.float32) for sh in ((h, 2 * k), (h + 1, 2 * k), (h, 2 * k + 2))]
+    peaks = [(int(r.integers(c, h - c)), int(r.integers(c, 2 * k - c))) for _ in range(3)]
+    try:
+        first = {m: run(pattern, A, peaks, upsample=ups) for m, run in (('full', cl.run_full), ('fast', cl.run_fast))}
+        for B in others:
+            cl.run_full(pattern, B, peaks, upsample=ups)
+            cl.run_fast(pattern, B, peaks, upsample=ups)
+        again = {m: run(pattern, A, peaks, upsample=ups) for m, run in (('full', cl.run_full), ('fast', cl.run_fast))}
+    except Exception as e:  # noqa
+        return 'raised %s: %s' % (type(e).__name__, e)
+    for m in ('full', 'fast'):
+        for name, u, v in zip(('centres', 'refineds', 'heights', 'elevations'), first[m], again[m]):
+            if not np.array_equal(u, v, equal_nan=True):
+                return ('process_frame_%s(upsample=%s) on a %dx%d frame: %s %s before and %s after frames of shapes %s were processed'
+                        % (m, ups, h, 2 * k + 1, name, u.tolist(), v.tolist(), [list(B.shape) for B in others]))
+    return None
+
+
 def mk_replay(desc, shape, nmax, calls, method, crop, bc, prefill, fail):
     return {'kind': 'history', 'call': 'process_frame_%s x %d' % (method.split('-')[0] + (' (strided output views)' if 'strided' in method else ''), len(calls)),
             'args': {'pattern': desc, 'shape': list(shape), 'nmax': nmax, 'method': method, 'crop': crop, 'buffer_count': bc, 'prefill': prefill,
@@ -83,7 +109,17 @@ def mk_replay(desc, shape, nmax, calls, method, crop, bc, prefill, fail):
 
 
 def replay(body):
+    if 'frame_ints' in body.get('args', {}):
+        return cl.replay_case(body, 'C09')          # a failing input recorded by the model correspondence (cl.model_check)
     a = body['args']
+    if 'cross_shape' in a:
+        x = a['cross_shape']
+        fail = cross_shape_failure(a['pattern'], x['h'], x['k'], x['upsample'], x['seed'])
+        print(json.dumps({'failure_now': fail}, indent=1))
+        if fail:
+            print('VIOLATION property=C09 replay=(given)')
+            return 1
+        return 0
     pattern = cl.pattern_from_desc(a['pattern'])
     pattern._verif_desc = a['pattern']
     calls = [{'ints': np.array(c['ints'], dtype=np.int64), 'peaks': [tuple(p) for p in c['peaks']]} for c in a['calls']]
@@ -151,6 +187,19 @@ def run(ctx):
                 pass
     cl.model_check(ctx, items, 'C09', 'result after a history differs from the stateless definition')
 
+    # frames of different shapes through one process (module-level state keyed by a derived size, e.g. the width of the half spectrum)
+    for i in range(ctx.n(8, 40)):
+        pattern, desc = cl.rand_pattern(rng, cmax=4)
+        h, k = int(rng.integers(20, 40)), 15 + i                 # widths 2k, 2k+1 >= 30: not used by any other stream of this check
+        ups = [True, 4, 2, 10][i % 4]
+        sd = int(rng.integers(0, 2 ** 31))
+        fail = cross_shape_failure(desc, h, k, ups, sd)
+        ctx.count(4, key=('cross-shape', json.dumps(desc)[:160], h, k, ups, sd))
+        ctx.hist('cross-shape upsample', ups)
+        if fail:
+            ctx.violation('input', 'result depends on frames of other shapes processed before: ' + fail,
+                          {'kind': 'history', 'call': 'process_frame_full/fast over frames of several shapes', 'args': {'pattern': desc, 'cross_shape': {'h': h, 'k': k, 'upsample': ups, 'seed': sd}}, 'failure': fail})
+            break
     # pattern objects and matchers re-used across queries
     nobj = 0
     for k in range(ctx.n(20, 100)):
@@ -190,5 +239,5 @@ def run(ctx):
                     'contents) writes the pure per-peak results; induction over the call list (any history). Tie: the stateless Coq pipeline against the '
                     'outputs of the last call of dirty histories; oracle: histories with shared vs fresh buffers/outputs/pattern objects must be bit-identical.',
         rule='histories of 1..6 calls (frames of 6 kinds, peak lists of differing length incl. border/outside peaks), shared crop_bufs / frame_buf / output '
-             'arrays pre-filled with 0, 7.5, NaN, 1e30, -3; both back-ends via crop_function; fast and full; distinct by (pattern, shape, peak lists, method, '
+             'arrays pre-filled with 0, 7.5, NaN, 1e30, -3; both back-ends via crop_function; fast and full; frames of several shapes (even/odd width with the same half-spectrum width) with upsampling through one process; distinct by (pattern, shape, peak lists, method, '
              'back-end, buffer count).')
